@@ -28,6 +28,7 @@ class Cls:
 
     name: str
     bases: tuple[str, ...] = ('BaseEvent',)
+    fields: tuple[tuple[str, Any], ...] = ()  # pydantic model fields with their class-level defaults: cls.model_fields[name].default
 
 
 @dataclass(frozen=True)
@@ -62,6 +63,7 @@ class AbsInt:
         self.on_stmt = on_stmt
         self.calls = calls or {}
         self.raised: list[ast.Raise] = []
+        self.undecided: list[ast.AST] = []  # `if` tests that evaluated to UNKNOWN (both branches were followed)
         self.returns: list[Any] = []
 
     # ------------------------------------------------------------------ expressions
@@ -91,6 +93,8 @@ class AbsInt:
                 return b.get(e.attr, UNKNOWN)
             if e.attr == '__name__' and isinstance(b, Cls):
                 return b.name
+            if e.attr == 'model_fields' and isinstance(b, Cls) and b.fields:
+                return {k: Rec(default=v) for k, v in b.fields}
             if e.attr == '__class__' and isinstance(b, Obj):
                 return Cls(b.cls, ())
             if e.attr == '__class__' and isinstance(b, (str, Cls)):
@@ -194,6 +198,10 @@ class AbsInt:
             return self.calls[dotted](*args)
         if isinstance(f, ast.Attribute) and ('.' + f.attr) in self.calls:
             return self.calls['.' + f.attr](self.ev(f.value, env), *args)
+        if isinstance(f, ast.Attribute) and f.attr == 'join' and len(args) == 1:
+            sep = self.ev(f.value, env)
+            if isinstance(sep, str) and isinstance(args[0], (list, tuple)) and all(isinstance(x, str) for x in args[0]):
+                return sep.join(args[0])
         if name == 'str' and len(args) == 1:
             return self._str(args[0]) if args[0] is not UNKNOWN else UNKNOWN
         if name == 'id' and len(args) == 1 and args[0] is not UNKNOWN:
@@ -228,6 +236,7 @@ class AbsInt:
             if isinstance(st, ast.If):
                 t = self.truth(self.ev(st.test, env))
                 if t is None:
+                    self.undecided.append(st.test)
                     e1 = self.run(st.body, dict(env))
                     e2 = self.run(st.orelse, dict(env))
                     if e1 is None and e2 is None:
@@ -249,6 +258,12 @@ class AbsInt:
                 for t in targets:
                     if isinstance(t, ast.Name):
                         env[t.id] = v
+                    elif isinstance(t, ast.Subscript) and isinstance(t.value, ast.Name) and type(env.get(t.value.id)) is dict:
+                        k = self.ev(t.slice, env)
+                        if k is UNKNOWN:
+                            env[t.value.id] = UNKNOWN
+                        else:
+                            env[t.value.id] = {**env[t.value.id], k: v}
                     elif isinstance(t, ast.Tuple):
                         for i, tt in enumerate(t.elts):
                             if isinstance(tt, ast.Name):
